@@ -734,7 +734,7 @@ def generate_bcast(rng, tier, scale=1):
 
 
 def generate(rng, tier, scale=1):
-    cases = generate_expr(rng, tier, scale) + generate_bcast(rng, tier, scale)
+    cases = generate_expr(rng, tier, scale) + generate_bcast(rng, tier, scale) + generate_meta(rng, tier, scale)
     try:
         settle(cases)
     except Exception:
@@ -855,3 +855,78 @@ def classify(c, io, drv):
     if first is not None and nx[first + 1:first + 2] == [["s"]]:
         return "exprE:%s%s:ends-at-first-element-exception" % (what, osort)
     return "exprE:%s%s:wrong-outcome" % (what, osort)
+
+
+# ------------------------------------------------------------------------------------------------
+# entry "meta": any class built with a user's subclass of AbstractOperatorOverloaderMeta
+#   case = {"entry": "meta", "ops": [query strings], "without": [query strings], "form": "str" | "list",
+#           "have": subset of ["unary", "binary", "rbinary"], "ns": [dunder names bound in the class body]}
+# ------------------------------------------------------------------------------------------------
+def impl_meta(c):
+    import re
+    b = B()
+    from audiolazy.lazy_core import AbstractOperatorOverloaderMeta as AOM
+
+    def builder(kind):
+        def build(cls, op):
+            def dunder(self, *a):
+                return None
+            dunder._made_by = (kind, op.func)
+            return dunder
+        return build
+    as_query = (lambda l: " ".join(l)) if c.get("form", "list") == "str" else list
+    mns = {"__operators__": as_query(c["ops"]), "__without__": as_query(c["without"]) if c["without"] else None}
+    for kind in c["have"]:
+        mns["__%s__" % kind] = builder(kind)
+    try:
+        M = type(AOM)("M", (AOM,), mns)
+        X = M("X", (object,), dict((n, (lambda self, *a: None)) for n in c["ns"]))
+    except Exception as e:
+        m = re.search(r"operator method '([^']*)'", str(e))
+        return {"err": err_kind(e), "op": m.group(1) if m else None}
+    inst = []
+    for name, f in sorted(vars(X).items()):
+        mb = getattr(f, "_made_by", None)
+        if mb is not None:
+            inst.append({"dname": name, "builder": mb[0], "func": b._opfunc_name(mb[1]), "name_ok": f.__name__ == name})
+    return {"installed": inst}
+
+
+def compare_meta(c, io, drv):
+    m = drv["model"]
+    head = "class X(metaclass=M), M(__operators__=%r, __without__=%r, builders %r), body binds %r: " % (
+        c["ops"], c["without"], c["have"], c["ns"])
+    if "err" in m:
+        want = {"err": m["err"], "op": m.get("op")}
+        got = {"err": io.get("err"), "op": io.get("op")} if "err" in io else "a class"
+        return [] if want == got else [("model", head + "model predicts %r, impl: %r" % (want, got))]
+    if "err" in io:
+        return [("model", head + "impl raised %s (%s), model predicts a class" % (io["err"], io.get("op")))]
+    want = sorted(({"dname": d["dname"], "builder": d["builder"], "func": d["func"], "name_ok": True} for d in m["installed"]), key=lambda d: d["dname"])
+    if want != io["installed"]:
+        diff = [x for x in io["installed"] if x not in want][:2] + [x for x in want if x not in io["installed"]][:2]
+        return [("model", head + "dunders made by the builders differ from the model: %r" % diff)]
+    return []
+
+
+def generate_meta(rng, tier, scale=1):
+    ops_pool = [["all"], ["+"], ["+", "-"], ["add"], ["__add__", "radd"], ["r"], ["1"], ["2"], ["<", ">="], ["**"], ["~"], ["@"],
+                ["div"], ["foo"], [], ["pos", "neg"], ["rshift", "rrshift"], [">>"], ["all", "+"], ["__invert__"], ["rdiv"], ["=="]]
+    wo_pool = [[], [], ["r"], ["1"], ["2"], ["+"], ["radd"], ["bogus"], ["rshift"], ["~", "-"], ["all"]]
+    ns_pool = [[], [], ["__radd__"], ["__pos__", "__neg__", "__invert__"], ["__add__"], ["__rshift__", "__rrshift__"],
+               ["__r%s__" % n for n in B().ARITH], ["__radd__", "__pos__"]]
+    kinds = ["unary", "binary", "rbinary"]
+    cases = []
+    for have in ([], ["binary"], ["unary"], ["rbinary"], ["binary", "rbinary"], ["unary", "binary"], kinds):
+        for ops in ops_pool[:8]:
+            cases.append({"entry": "meta", "ops": ops, "without": [], "form": "list", "have": have, "ns": []})
+    for _ in range((120 if tier == "quick" else 1500) * scale):
+        cases.append({"entry": "meta", "ops": rng.choice(ops_pool), "without": rng.choice(wo_pool), "form": rng.choice(["str", "list"]),
+                      "have": [k for k in kinds if rng.random() < 0.65], "ns": rng.choice(ns_pool)})
+    return cases
+
+
+def tally_meta(eng, c, io):
+    eng.count("meta_builders", "+".join(c["have"]) or "none")
+    eng.count("meta_outcome", ("raised:%s" % io["err"]) if "err" in io else "class with %s dunders" % min(len(io["installed"]), 35))
+    eng.count("meta_query", " ".join(c["ops"]) or "(empty)")
